@@ -381,8 +381,66 @@ func (c *mergeC) Exec(op string) string {
 			}
 			return "two=" + showProject(two, bdir) + " ext=" + showProject(ext, bdir)
 		})
+	case len(w) == 4 && w[0] == "mchain":
+		a, _, ok1 := parseAProj(w[1])
+		b, _, ok2 := parseAProj(w[2])
+		cc, _, ok3 := parseAProj(w[3])
+		if !ok1 || !ok2 || !ok3 {
+			return "bad-op"
+		}
+		return Safe(func() string {
+			if c.dir == "" {
+				c.dir, _ = os.MkdirTemp("", "pcmerge")
+			}
+			adir := filepath.Join(c.dir, "granddir")
+			bdir := filepath.Join(c.dir, "parentdir")
+			cdir := filepath.Join(c.dir, "childdir")
+			for _, d := range []string{adir, bdir, cdir} {
+				_ = os.MkdirAll(d, 0o755)
+			}
+			// explicit list
+			fa, fb, fc := filepath.Join(adir, "a.yaml"), filepath.Join(bdir, "b.yaml"), filepath.Join(cdir, "c.yaml")
+			_ = os.WriteFile(fa, toYAML(a, ""), 0o644)
+			_ = os.WriteFile(fb, toYAML(b, ""), 0o644)
+			_ = os.WriteFile(fc, toYAML(cc, ""), 0o644)
+			// chain: child extends parent extends grand
+			eb, ec := filepath.Join(bdir, "b_ext.yaml"), filepath.Join(cdir, "c_ext.yaml")
+			_ = os.WriteFile(eb, toYAML(b, "../granddir/a.yaml"), 0o644)
+			_ = os.WriteFile(ec, toYAML(cc, "../parentdir/b_ext.yaml"), 0o644)
+			three, err := loader.Load(&loader.LoaderOptions{FileNames: []string{fa, fb, fc}, IsInternalLoader: true})
+			if err != nil {
+				return "load-error:three:" + strings.ReplaceAll(err.Error(), " ", "_")
+			}
+			ext, err := loader.Load(&loader.LoaderOptions{FileNames: []string{ec}, IsInternalLoader: true})
+			if err != nil {
+				return "load-error:ext:" + strings.ReplaceAll(err.Error(), " ", "_")
+			}
+			sh := func(p *types.Project) string {
+				return strings.ReplaceAll(showProjectHex(p, adir, "@A", bdir, "@B"), "", "")
+			}
+			return "two=" + sh(three) + " ext=" + sh(ext)
+		})
 	}
 	return "bad-op"
+}
+
+// showProjectHex is showProject with two directory prefixes replaced by placeholders.
+func showProjectHex(p *types.Project, d1, r1, d2, r2 string) string {
+	l := []string{}
+	for name, pc := range p.Processes {
+		pc := pc
+		if strings.HasPrefix(pc.WorkingDir, d1) {
+			pc.WorkingDir = r1 + strings.TrimPrefix(pc.WorkingDir, d1)
+		} else if strings.HasPrefix(pc.WorkingDir, d2) {
+			pc.WorkingDir = r2 + strings.TrimPrefix(pc.WorkingDir, d2)
+		}
+		l = append(l, name+"@"+showConfig(&pc))
+	}
+	if len(l) == 0 {
+		return "~"
+	}
+	sort.Strings(l)
+	return strings.Join(l, "|")
 }
 
 var mergeVals = []string{"x", "a b", "k=v", "=", "a=b=c", "\"q\"", "'s'", " lead", "trail ", "#h", "é", "a:b", "{x}", "[1]", "-", "~", "null", "true", "0", "!t"}
@@ -510,5 +568,16 @@ func (c *mergeC) Gen(r *rand.Rand, tier string, emit func(string)) {
 			return strings.Join(l, "|")
 		}
 		emit(fmt.Sprintf("mfiles %s %s", mk(inB), mk(inO)))
+		if i%2 == 0 {
+			// a chain of three: every process may be present in any of the files
+			inA := []bool{}
+			for j := range names {
+				inA = append(inA, r.Intn(2) == 0)
+				if inA[j] && !(inB[j] || inO[j]) {
+					inB[j] = true // keep the union (and so the dependency targets) unchanged
+				}
+			}
+			emit(fmt.Sprintf("mchain %s %s %s", mk(inA), mk(inB), mk(inO)))
+		}
 	}
 }
